@@ -133,6 +133,32 @@ impl<'a, T: FiItem> Sess<'a, T> {
         self.out.ev(json!({"op":"FNew","id":id,"lgmax":lgmax}));
         id
     }
+    /// a sketch decoded from an empty image whose map is larger than the minimum (the C++ constructor takes a
+    /// starting size): it holds nothing, and keeps the map size the image states
+    pub fn from_empty_image(&mut self, lgmax: u8, lgcur: u8, flags: u8) -> usize {
+        let id = self.sk.len();
+        let img = vec![1u8, 1, 10, lgmax, lgcur, flags, 0, 0];
+        match catch(std::panic::AssertUnwindSafe(|| FrequentItemsSketch::<T>::deserialize(&img))) {
+            Ok(Ok(s)) => {
+                let again = s.serialize();
+                // (this library writes flags 5 for an empty sketch; Java reads 4 and 5 alike)
+                let same = again[..5] == img[..5] && again.len() == 8;
+                let v = json!({"op":"FFrom","id":id,"lgmax":lgmax,"lgcur":lgcur,"st":sc(&s),"same":same,"empty":s.is_empty()});
+                self.out.ev(v);
+                self.sk.push(s);
+            }
+            Ok(Err(e)) => {
+                self.out.ev(json!({"op":"Panic","in":"deserialize-valid-image","key":"Err","msg":format!("{e:?}")}));
+                self.dead = true;
+                self.sk.push(FrequentItemsSketch::new(8));
+            }
+            Err(e) => {
+                self.panic("deserialize", e);
+                self.sk.push(FrequentItemsSketch::new(8));
+            }
+        }
+        id
+    }
     pub fn upd(&mut self, id: usize, idx: usize, w: u64) {
         if self.dead { return; }
         let item = self.a.items[idx].clone();
@@ -276,6 +302,20 @@ fn scenarios<T: FiItem>(out: &mut Shards, rng: &mut Rng, thorough: bool, full: b
             let r = s.rt(id);
             stream(&mut s, &mut *rng, r, 14, 20, 2);
         }
+        // empty images that state a map larger than the minimum, then a stream on the decoded sketch
+        for &(lgmax, lgcur) in &[(5u8, 5u8), (6, 4), (7, 5), (10, 6), (4, 3), (6, 6)] {
+            let n_items = 3 * (1usize << lgcur) / 4 + 9;
+            let a = Alpha::<T> { items: clustered_items(&mut *rng, lgcur, n_items) };
+            let mut s = Sess::new(&mut *out, "fi-empty-image", a);
+            let id = s.from_empty_image(lgmax, lgcur, if lgcur % 2 == 0 { 5 } else { 4 });
+            s.chk(id);
+            stream(&mut s, &mut *rng, id, n_items, 3 * n_items, 0);
+            let r = s.rt(id);
+            s.chk(r);
+            let fresh = s.new_sketch(lgmax);
+            s.merge(fresh, id);
+            s.chk(fresh);
+        }
         // Appendix B: all-equal counts make the purge remove every counter, then merge / serialize
         for &lgmax in &[3u8, 4, 5] {
             let cap = 3 * (1usize << lgmax) / 4;
@@ -329,13 +369,18 @@ fn scenarios<T: FiItem>(out: &mut Shards, rng: &mut Rng, thorough: bool, full: b
             stream(&mut s, &mut *rng, r, n_items, 30, 1);
         }
         // one large map (purge sample = first 1024 active counters in slot order)
-        if thorough && full {
+        // (with weights spread over three decades the sampled median can sit well below the true one, so a
+        // purge may leave more than half the capacity active)
+        if full {
             let a = Alpha::<T> { items: (0..4000u64).map(|i| T::make(i * 7 + 1)).collect() };
             let mut s = Sess::new(&mut *out, "fi-large", a);
             let id = s.new_sketch(11);
-            for _ in 0..6000usize {
-                let idx = if rng.chance(1, 4) { rng.below(20) as usize } else { rng.below(4000) as usize };
-                s.upd(id, idx, 1 + rng.below(3));
+            // (mostly new items, so that the map fills and is purged about every thousand updates)
+            for i in 0..(if thorough { 9000usize } else { 5200 }) {
+                let idx = if rng.chance(1, 4) { rng.below(20) as usize } else if rng.chance(1, 8) { rng.below(4000) as usize } else { (20 + i * 7) % 4000 };
+                // (no two counts alike: the sampled median then sits below the true one about every other purge)
+                let w = if thorough && rng.chance(1, 2) { 1 + rng.below(3) } else { 1 + rng.below(100_000) };
+                s.upd(id, idx, w);
                 if s.dead { break; }
             }
             s.chk(id);
